@@ -34,19 +34,27 @@ def verify(patch, demo):
         shutil.rmtree(wt, ignore_errors=True)
 
 def check(patch, pid, tier="quick"):
-    st = sh("git -C /repo status --porcelain").stdout.strip()
-    assert not st, f"/repo not clean: {st}"
-    r = sh(f"git -C /repo apply {patch}")
-    if r.returncode:
-        print("PATCH DOES NOT APPLY:", r.stdout); return 2
+    """run ./vf check PID against a scratch worktree of /repo HEAD with the patch applied (the checks import onnx_ir from the
+    worktree through PYTHONPATH; /repo itself is not touched, so other runs are not disturbed)"""
+    wt = tempfile.mkdtemp(prefix="mutc_", dir="/tmp")
+    os.rmdir(wt)
+    r = sh(f"git -C /repo worktree add --detach {wt} HEAD -q")
+    assert r.returncode == 0, r.stdout
     try:
-        r = sh(f"./vf check {pid} --tier {tier}", cwd="/verif", env=dict(os.environ, VERIF_EVIDENCE_DIR="/tmp/verif_mutant_evidence"))
+        r = sh(f"git -C {wt} apply {patch}")
+        if r.returncode:
+            print("PATCH DOES NOT APPLY:", r.stdout); return 2
+        sh("/verif/setup.sh", cwd="/verif")
+        env = dict(os.environ, PYTHONPATH=f"{wt}/src:/verif", VERIF_EVIDENCE_DIR="/tmp/verif_mutant_evidence", ONNX_IR_PY_VERIF="1", PYTHONDONTWRITEBYTECODE="1")
+        r = sh(f"/verif/.venv/bin/python -m engine.cli check {pid} --tier {tier}", cwd="/verif", env=env)
         lines = [l for l in r.stdout.splitlines() if l.startswith(("VIOLATION", "KNOWN", "INCONCLUSIVE", "[", "  C"))]
         print("\n".join(lines[:12]))
         print("exit", r.returncode)
         return r.returncode
     finally:
-        sh("git -C /repo checkout -- . && git -C /repo clean -fdq src")
+        sh(f"git -C /repo worktree remove --force {wt}")
+        shutil.rmtree(wt, ignore_errors=True)
+
 
 def keep(pid, letter, srcdir, tier="quick"):
     """verify + check + store under /verif/seeded/<pid>_<letter>/"""
@@ -76,7 +84,7 @@ def keep(pid, letter, srcdir, tier="quick"):
         "verified_on_repo_commit": head,
         "what_i_ran": [
             f"tools/mutant.py verify {letter}.patch.diff {letter}.demo.py  (scratch worktree of /repo HEAD: demo exits 0 clean, non-zero patched; tools/baseline.py: all 3664 baseline tests still pass with the patch)",
-            f"tools/mutant.py check {letter}.patch.diff {pid} {tier}  (git -C /repo apply; ./vf check {pid} --tier {tier}; git -C /repo checkout -- .)",
+            f"tools/mutant.py check {letter}.patch.diff {pid} {tier}  (scratch worktree of /repo HEAD + patch, checks import onnx_ir from it; ./vf check {pid} --tier {tier})",
         ],
         "verify_output": vout.strip().splitlines(),
         "check_exit": rc,
